@@ -6,7 +6,7 @@ UF/BITS domain on reachable states with every persisted location symbolic:
      reachable from the source unchanged and (fixed-step integrators) both evolve to identical terms.
  (b) compare is exact: for every persisted location in turn, the copy gets a fresh symbolic value v in place of a;
      on every path of the real reb_simulation_diff:  (result != 0)  <=>  (v != a bitwise)   (walltime fields: result == 0)."""
-import sys, os, time, tempfile
+import sys, os, time, tempfile, ctypes
 sys.path.insert(0, os.path.dirname(os.path.dirname(os.path.abspath(__file__))))
 sys.path.insert(0, os.path.dirname(os.path.abspath(__file__)))
 import z3
@@ -261,6 +261,7 @@ def native_perturb(cfgname, n, locs, vals, lc, av, vv):
         ns.free()
 
 def replay(data):
+    if data.get('kind') == 'copy_tree': return native_copy_tree(data['gravity'], data['collision'], data['N'])
     cfgname, n = data['cfg'], data['n']
     dom = UF(); I = new_interp(dom, P.StrictCtx()); I.concrete_env = True
     sim = P.build_engine_state(I, P.CONFIGS[cfgname], n)
@@ -270,9 +271,83 @@ def replay(data):
     lc = [l for l in locs if l.label == data['label']][0]
     return native_perturb(cfgname, n, locs, vals, lc, int(data['a']), int(data['v']))[:2]
 
+def run_copy_tree(u):
+    """the tree is not persisted: a copy of a simulation whose gravity or collision search needs the tree must come with a rebuilt
+    tree holding the same particles in the same cells (otherwise the copy silently finds no collisions / computes no tree force)"""
+    import c15
+    from fractions import Fraction
+    rep = Report(); grav, coll, N = u['gravity'], u['collision'], u['N']
+    label = "copy with tree gravity=%s collision=%s N=%d " % (grav, coll, N)
+    L = build.layout()
+    def run(ctx):
+        dom = Real(); I = new_interp(dom, ctx); I.concrete_env = True; I.loop_bound = 100000
+        sim = Sim(I)
+        I.call('@reb_simulation_configure_box', [sim.ptr, Fraction(8), 1, 1, 1])
+        sim.set('gravity', L.enumerators['REB_GRAVITY_' + grav]); sim.set('collision', L.enumerators['REB_COLLISION_' + coll])
+        I.stubs['@reb_get_rootbox_for_particle'] = lambda I_, r, p: 0
+        X = []
+        psz = L.structs['reb_particle']['size']
+        for i in range(N):
+            x = dom.fresh('x%d' % i); ctx.assume(z3.And(x > -4, x < 4)); X.append(x)
+            for j in range(i): ctx.assume(z3.Or(x - X[j] >= 2, X[j] - x >= 2))
+            pb = I.mem.alloc(psz, 'newp%d' % i, 'harness', zero=True); pv = SimView(I, pb, 'reb_particle')
+            pv.set('x', x); pv.set('y', Fraction(1, 3) + i); pv.set('z', Fraction(1, 3)); pv.set('m', Fraction(1)); pv.set('r', Fraction(1, 100))
+            I.call('@reb_simulation_add', [sim.ptr, pb])          # the real add path (inserts into the tree when one is needed)
+        cp = I.call('@reb_simulation_copy', [sim.ptr])
+        csim = SimView(I, cp, 'reb_simulation')
+        a = c15.tree_cells(I, sim); b = c15.tree_cells(I, csim)
+        snap = lambda cells: [dict(pt=c15.s32(c.get('pt')), w=c.get('w'), x=c.get('x'), y=c.get('y'), z=c.get('z'), depth=d_) for c, d_, par, p in cells]
+        return I, dom, snap(a), snap(b), csim.get('N')
+    ex = LinExplorer(run, max_paths=400)
+    try: ex.explore()
+    except BoundExceeded as e: rep.bound_exceeded.append(label + str(e))
+    needs = grav == 'TREE' or coll in ('TREE', 'LINETREE')
+    for ctx, (I, dom, a, b, Nc) in ex.results:
+        rep.paths += 1; rep.add_interp(I)
+        ob = Obligations(rep, Prover(t_inproc_ms=5000, use_external=False), label + "path%d " % rep.paths)
+        def on_sat(model):
+            ok, detail = native_copy_tree(grav, coll, N)
+            return ok, 'C17:copy:tree:%s/%s' % (grav, coll), detail, dict(kind='copy_tree', gravity=grav, collision=coll, N=N)
+        la = sorted(c['pt'] for c in a if isinstance(c['pt'], int) and c['pt'] >= 0); lb = sorted(c['pt'] for c in b if isinstance(c['pt'], int) and c['pt'] >= 0)
+        ob.prove("the source has a tree exactly when one is needed", (la == list(range(N))) == needs and (needs or not a), [], on_sat=on_sat, domain='structure')
+        ob.prove("the copy's tree holds the same particles as the source's", la == lb and Nc == N, [], on_sat=on_sat, domain='structure', sample=dict(source_leaves=la, copy_leaves=lb))
+        if la == lb:
+            ka = {c['pt']: c for c in a if isinstance(c['pt'], int) and c['pt'] >= 0}; kb = {c['pt']: c for c in b if isinstance(c['pt'], int) and c['pt'] >= 0}
+            for i in la:
+                ob.prove("particle %d sits in the same cell in the copy" % i, z3.And(*[dom.z(ka[i][f]) == dom.z(kb[i][f]) for f in ('w', 'x', 'y', 'z')]), list(ctx.pc), on_sat=on_sat, domain='REAL')
+        rep.witnesses += 1
+    bad, detail = native_copy_tree(grav, coll, N); rep.replays += 1
+    if bad: rep.violations.append(dict(key='C17:copy:tree:%s/%s' % (grav, coll), what=detail, replay=dict(kind='copy_tree', gravity=grav, collision=coll, N=N), obligation=label + 'native twin'))
+    return rep
+
+def native_copy_tree(grav, coll, N):
+    """native: two particles on a collision course; source and copy must resolve the same collision"""
+    N_ = nat(); L = N_.L
+    ns = N_.create()
+    try:
+        f = N_.lib.reb_simulation_configure_box; f.argtypes = [ctypes.c_void_p, ctypes.c_double, ctypes.c_int, ctypes.c_int, ctypes.c_int]; f.restype = None
+        f(ns.addr, 8.0, 1, 1, 1)
+        ns.set('gravity', L.enumerators['REB_GRAVITY_' + grav]); ns.set('collision', L.enumerators['REB_COLLISION_' + coll])
+        ns.set('integrator', L.enumerators['REB_INTEGRATOR_LEAPFROG']); ns.set('dt', 0.01)
+        ns.set('collision_resolve', ctypes.cast(N_.lib.reb_collision_resolve_merge, ctypes.c_void_p).value)
+        ns.add(m=1.0, x=-0.5, vx=1.0, r=0.05); ns.add(m=1.0, x=0.5, vx=-1.0, r=0.05)
+        for k in range(2, N): ns.add(m=1e-3, x=3.0, y=1.0 * k, r=0.01)
+        cp = NSim(N_, N_.lib.reb_simulation_copy(ns.addr))
+        cp.set('collision_resolve', ctypes.cast(N_.lib.reb_collision_resolve_merge, ctypes.c_void_p).value)       # function pointers are not copied (documented)
+        try:
+            has = (ns.get('tree_root') or 0) != 0, (cp.get('tree_root') or 0) != 0
+            for s_ in (ns, cp):
+                for _ in range(80): s_.call('reb_simulation_step')
+            n1, n2 = ns.get('N'), cp.get('N')
+            return (n1 != n2 or has[0] != has[1]), "native copy (gravity %s, collision %s): source has tree=%s N=%d after 80 steps, copy has tree=%s N=%d" % (grav, coll, has[0], n1, has[1], n2)
+        finally: cp.free()
+    finally:
+        ns.free()
+
 def worker(u):
     if u.get('mode') == 'labels':
         r = Report(); r.labels = {u['cfg']: all_labels(u['cfg'], 2)}; return r
+    if u.get('mode') == 'tree': return run_copy_tree(u)
     return run_perturb(u) if u.get('mode') == 'perturb' else run_copy(u)
 
 def all_labels(cfgname, n):
@@ -290,6 +365,7 @@ def main():
     build.module(); build.layout(); build.build_native()
     cfgs = list(P.CONFIGS)
     us = [dict(cfg=c, n=2) for c in (cfgs if tier == 'thorough' else ['fresh', 'whfast_unsync', 'ias15', 'leapfrog', 'whfast_var', 'mercurius', 'janus', 'sei'])]
+    for g_, c_ in (('BASIC', 'LINETREE'), ('BASIC', 'TREE'), ('TREE', 'NONE'), ('BASIC', 'DIRECT')): us.append(dict(mode='tree', gravity=g_, collision=c_, N=2 if tier == 'quick' else 3))
     pert = ['whfast_unsync', 'whfast_var'] if tier == 'quick' else ['whfast_unsync', 'whfast_var', 'ias15', 'mercurius', 'janus', 'trace', 'fresh']
     # label enumeration runs the interpreter (z3): do it in worker processes, never in the parent before forking
     import multiprocessing
